@@ -3,7 +3,7 @@
 # Confirms, in the scratch worktree /tmp/mut_<ID>, that the patch (1) compiles and passes the
 # repository suite, (2) makes the demo fail, (3) the demo passes without it.
 ID=$1; OUT=$2; shift 2
-W=/tmp/mut_$ID
+W=${WT:-/tmp/mut_$ID}
 export CARGO_TARGET_DIR=$W/target CARGO_NET_OFFLINE=true
 cd $W || exit 2
 git checkout -q -- src Cargo.toml
